@@ -25,6 +25,10 @@ func layoutB(a Layout) Layout {
 	b := a
 	b.User, b.OtherUser = a.OtherUser, a.User
 	b.HS, b.OtherHS = a.OtherHS, a.HS
+	// Collections outside the home set stay A's alone: placed by the same
+	// rule for B they could be the very same path, one resource of two users,
+	// which the "nothing of the other user shows" oracle does not model.
+	b.Shared = nil
 	return b
 }
 
@@ -117,7 +121,7 @@ func execMulti(c *fw.Ctx, cs *Case) {
 			// Forget what the double created, so that the session's state (and
 			// the chains' expectations) stay what the layout says. Only this
 			// user's requests touch this double, and they are sequential.
-			n := len(sc.Layout.Colls)
+			n := len(sc.Layout.Colls) + len(sc.Layout.Shared)
 			if rigs[u].cal != nil && len(rigs[u].cal.Calendars) > n {
 				rigs[u].cal.Calendars = rigs[u].cal.Calendars[:n]
 			}
